@@ -106,9 +106,11 @@ func splitManifest(manifest []byte) ([][]byte, bool) {
 		i2 := bytes.Index(manifest, []byte("\n\n"))
 		var idx int
 		switch {
-		case i1 >= 0:
+		case i1 >= 0 && (i2 < 0 || i1 < i2):
 			idx = i1 + 4
 		case i2 >= 0:
+			// (line endings may differ from section to section: take whichever
+			// separator comes first)
 			idx = i2 + 2
 		default:
 			// If there is not a proper 2x line ending,
